@@ -245,14 +245,21 @@ class Interp:
                 + self.eval_seq(a[2], frame, True) + p[3])
 
     def eval_call(self, n, frame, selective):
-        name = trim(n[1])
+        # the name part may itself hold constructs ({{ {{ta}} |x}}): it is
+        # evaluated in the caller's frame, under the same selection, first
+        written = n[1]
+        if isinstance(written, list):
+            written = self.eval_seq(written, frame, selective)
+            self.stats["computed_names"] = \
+                self.stats.get("computed_names", 0) + 1
+        name = trim(written)
         if selective and not (self.selected is None or self.selected(name)):
             # not selected: emitted as a call with the same name and arguments
             self.stats["reemitted"] = self.stats.get("reemitted", 0) + 1
             if self.stack:
                 self.stats["reemit_in_body"] = 1
             return "{{" + "|".join(
-                [n[1]] + [self.emit_arg(a, frame) for a in n[2]]) + "}}"
+                [written] + [self.emit_arg(a, frame) for a in n[2]]) + "}}"
         if selective:
             self.stats["selected_expanded"] = \
                 self.stats.get("selected_expanded", 0) + 1
